@@ -431,6 +431,29 @@ fn family_is(i: u64) -> Case {
     Case { model: SrcModel { vars, cons, sense: Sense::Satisfy, obj: num(0.0) }, signature: format!("strict-integer-row a={a} b={b} c={c} rel={:?} side={side} doms={doms}", rel) }
 }
 
+/// family TS: a tiny coefficient next to a huge range (each factor harmless alone): y + a * x REL c with
+/// |a| in {2^-33, 2^-20} (exact in binary; 2^-33 < 1e-9) and x in [0, 2^40], so that a * x spans up to 128
+const TINY_COEFS: [f64; 4] = [1.0 / 8589934592.0, -1.0 / 8589934592.0, 1.0 / 1048576.0, -1.0 / 1048576.0];
+fn family_ts_size() -> u64 {
+    (TINY_COEFS.len() * 2 * 2 * 2 * 3) as u64
+}
+fn family_ts(i: u64) -> Case {
+    use crate::exact::Rel;
+    use rooc::BinOp;
+    let mut d = Digits(i);
+    let a = *d.of(&TINY_COEFS);
+    let rel = *d.of(&[Rel::Ge, Rel::Le]);
+    let tiny_first = d.pick(2) == 1;
+    let side = d.pick(2);
+    let c = *d.of(&[50.0, -50.0, 100.0]);
+    let term = bin(BinOp::Mul, num(a), var("x"));
+    let e = if tiny_first { bin(BinOp::Add, term, var("y")) } else { bin(BinOp::Add, var("y"), term) };
+    let (lhs, rhs, rel) = if side == 0 { (e, num(c), rel) } else { (num(c), e, match rel { Rel::Ge => Rel::Le, _ => Rel::Ge }) };
+    let vars = vec![("x".to_string(), Dom::Real(0.0, 1099511627776.0)), ("y".to_string(), Dom::Real(-1000.0, 1000.0))];
+    let cons = vec![SrcCons { lhs, rel, rhs, bare: false, name: "r".into() }];
+    Case { model: SrcModel { vars, cons, sense: Sense::Satisfy, obj: num(0.0) }, signature: format!("tiny-coefficient-wide-range a={a:e} c={c} rel={:?} side={side} tiny_first={tiny_first}", rel) }
+}
+
 pub fn run(mut run: Run) -> ! {
     crate::core::silence_panics();
     run.isolate = true;
@@ -438,7 +461,7 @@ pub fn run(mut run: Run) -> ! {
     let quick = run.quick();
     // quick = chains of <= 2 contexts over reduced menus and of <= 1 context over the full menus; thorough = chains of <= 3 over the full menus
     let depth = if quick { 2 } else { 3 };
-    run.rule = format!("(a) every model of the C01 families A (cores x context chains x relations x constants x declaration forms, depth {depth}), AX (depth <= 1 over a single-point integer range and a finite range of +-1e18), C (bound feeders x consumers), D (blocks over three variables with different ranges, every context) and I (an integer variable bounded through a * i REL fl(a * k) for 16 coefficients that are inexact in binary floating point x k in -4..4 x 3 relations x both sides x coefficient left/right, alone or chained to a second integer) and IS (strict rows a*i + b*j < c or > c over integral variables, whole coefficients, whole and fractional constants, both sides) is analysed through the verif_hooks view of the bounds analysis with EVERY step budget 0..K (K = first budget that is not exhausted; each prefix of the propagation work-list is a stopping point), on the raw and on the normalised constraints; every derived variable range, every published domain (integer rounding applied) and the compiled model's domains must contain the exact range of that variable over the source-feasible set, never be NaN, be non-empty unless infeasibility is recorded, and infeasibility may only be recorded for infeasible models; (b) bounds_of for every core-in-context expression over 9 boxes (finite, half-infinite, infinite, degenerate, negative, integer, non-dyadic) must contain the exact range of the piecewise-linear expression; distinct = model / expression text");
+    run.rule = format!("(a) every model of the C01 families A (cores x context chains x relations x constants x declaration forms, depth {depth}), AX (depth <= 1 over a single-point integer range and a finite range of +-1e18), C (bound feeders x consumers), D (blocks over three variables with different ranges, every context) and I (an integer variable bounded through a * i REL fl(a * k) for 16 coefficients that are inexact in binary floating point x k in -4..4 x 3 relations x both sides x coefficient left/right, alone or chained to a second integer) and IS (strict rows a*i + b*j < c or > c over integral variables, whole coefficients, whole and fractional constants, both sides) and TS (y + a*x REL c with |a| = 2^-33 or 2^-20 and x in [0, 2^40], either term order, both sides) is analysed through the verif_hooks view of the bounds analysis with EVERY step budget 0..K (K = first budget that is not exhausted; each prefix of the propagation work-list is a stopping point), on the raw and on the normalised constraints; every derived variable range, every published domain (integer rounding applied) and the compiled model's domains must contain the exact range of that variable over the source-feasible set, never be NaN, be non-empty unless infeasibility is recorded, and infeasibility may only be recorded for infeasible models; (b) bounds_of for every core-in-context expression over 9 boxes (finite, half-infinite, infinite, degenerate, negative, integer, non-dyadic) must contain the exact range of the piecewise-linear expression; distinct = model / expression text");
     run.assume("exact source-feasible ranges from the region partition of one continuous variable (other continuous variables on a rational grid: an inner approximation, sound for this one-sided check); tolerance 1e-9 relative, the analyser's own");
     if quick {
         // chains of <= 2 contexts over the reduced menus, chains of <= 1 context over the full menus
@@ -470,6 +493,10 @@ pub fn run(mut run: Run) -> ! {
     });
     run.family("I-inexact-integer-bounds", family_i_size(), |i, l| {
         let c = family_i(i);
+        check_model(&c, l);
+    });
+    run.family("TS-tiny-coefficient-x-wide-range", family_ts_size(), |i, l| {
+        let c = family_ts(i);
         check_model(&c, l);
     });
     run.family("E-expression-ranges", expr_size(edepth), move |i, l| check_expr(i, edepth, l));
